@@ -86,6 +86,16 @@ class Registry:
         if c is None:
             self.refresh()
             c = self.by_name.get(name)
+        if c is None and not name.startswith(("fqc:", "adhoc.", "unk:")):
+            # a caller in a freshly started interpreter imports what it needs
+            import importlib
+            try:
+                importlib.import_module(
+                    "py_ecc.bls.ciphersuites" if name.startswith("suite.") else "py_ecc.fields")
+            except Exception:
+                pass
+            self.refresh()
+            c = self.by_name.get(name)
         if c is None and name.startswith("fqc:"):
             base = self.lookup("ref.FQ")
             c = type(
@@ -282,8 +292,7 @@ def _canon(o, depth, stack):
         if isinstance(o, types.ModuleType):
             return ["module", o.__name__]
         if isinstance(o, type):
-            n = REG.by_id.get(id(o))
-            return ["class", n if n is not None else _typename(o)]
+            return ["class", _typename(o)]
         if isinstance(o, (types.FunctionType,)):
             return _canon_func(o, depth, stack)
         if isinstance(o, (classmethod, staticmethod)):
@@ -365,7 +374,17 @@ def rebuild(c):
         m = sys.modules.get(c[1]) or __import__(c[1], fromlist=["x"])
         return getattr(m, c[2])
     if tag == "class":
-        return REG.lookup(c[1])
+        try:
+            return REG.lookup(c[1])
+        except Unbuildable:
+            if "." in c[1]:
+                mod, _, name = c[1].rpartition(".")
+                try:
+                    m = sys.modules.get(mod) or __import__(mod, fromlist=["x"])
+                    return getattr(m, name)
+                except Exception:
+                    pass
+            raise
     if tag == "hashfn":
         return getattr(hashlib, c[1])
     raise Unbuildable("cannot rebuild %r" % (tag,))
@@ -528,7 +547,10 @@ def snapshot_canon(data_only=False):
             if data_only and isinstance(v, types.FunctionType):
                 continue
             if isinstance(v, types.ModuleType):
-                out["%s:%s" % (mn, name)] = ["module", v.__name__]
+                # sub-module attributes are bound by the import system (and only
+                # when the sub-module is first loaded): not data
+                if not data_only:
+                    out["%s:%s" % (mn, name)] = ["module", v.__name__]
                 continue
             out["%s:%s" % (mn, name)] = canon(v)
     return out
